@@ -211,13 +211,15 @@ def run_processes(chk, t, cases, seeds, with_rich=True):
         mine = []
         for c in cases:
             mine.append({"id": case_id(c), "kind": "uservars", "package": os.path.join(vdir, "uv.package"),
-                         "variable_files": [var_path(vdir, f, c["shape"][f - 1]) for f in c["order"]],
+                         # relative to the worker's cwd (the variant directory): the order in which the unfixed code layers the
+                         # files depends on the hash of these very strings, they must not contain the pid of this run
+                         "variable_files": [os.path.relpath(var_path(vdir, f, c["shape"][f - 1]), vdir) for f in c["order"]],
                          "instantiate": c.get("instantiate", False)})
         extra = rich_cases(vdir) if with_rich else []
         nsl = max(1, min(t["slices"], len(mine)))
         for j in range(nsl):
             part = mine[j::nsl] + (extra if j == 0 else [])
-            job = {"scratch": os.path.join(chk.scratch, "w%d_%d" % (k, j)), "listing_seed": verif_seed() * 7919 + 31 * k + j + 1, "cases": part}
+            job = {"scratch": os.path.join(chk.scratch, "w%d_%d" % (k, j)), "cwd": vdir, "listing_seed": verif_seed() * 7919 + 31 * k + j + 1, "cases": part}
             jp = os.path.join(chk.scratch, "job_%d_%d.json" % (k, j))
             with open(jp, "w") as f:
                 json.dump(job, f)
@@ -253,40 +255,49 @@ def flatten_user(user):
 ENTRY = {"e1": "init", "e1d": "init", "e2": "parametrize", "e2g": "parametrize", "e3": "experimentFromPackage"}
 
 
-def input_class(c):
-    distinct = len(set(c["order"]))
-    if distinct == 1:
-        return "single-file"
-    if distinct < len(c["order"]):
-        return "repeated-file"          # some file is named twice in the list: its last position counts
-    return "several-files"
+def defined_keys(c):
+    return "+".join(k for k in ("gv", "sv", "gw") if c["expected"]["layered"][k] != "undefined") or "nothing"
 
 
-def judge(chk, cases, seeds, result):
+def judge(chk, cases, seeds, result, index=None):
+    """index: {(shapes, list) -> expected} of the whole emitted family, used to name the class of a failure: a result that
+    is the specified result of ANOTHER ordering of the same files means "the files were layered in another order"."""
+    import itertools
+    index = index or {}
     for c in cases:
         cid = case_id(c)
         exp = c["expected"]
-        replay = {"case": c, "seeds": seeds}
+        replay = {"case": c, "seeds": seeds,
+                  "other_orders": [[list(k[1]), v] for k, v in index.items() if k[0] == tuple(c["shape"]) and set(k[1]) == set(c["order"])
+                                   and len(k[1]) == len(set(k[1]))]}
         per_seed = {s: result[s].get(cid) for s in seeds}
         if any(v is None for v in per_seed.values()):
             raise MachineryError("case %s missing from a worker's output" % cid)
         chk.evaluated(("uv", cid), nontrivial=len(c["order"]) > 1)
+        want = {"c0": exp["c0"], "c1": exp["c1"], "user": exp["layered"]}
+        others = []
+        for perm in itertools.permutations(sorted(set(c["order"]))):
+            e2 = index.get((tuple(c["shape"]), tuple(perm)))
+            if e2 is not None:
+                others.append({"c0": e2["c0"], "c1": e2["c1"], "user": e2["layered"]})
         for e in ("e1", "e2", "e1d", "e2g", "e3"):
             if not all(e in per_seed[s] for s in seeds):
                 continue
-            wrong = []
+            wrong, permuted = [], True
             for s in seeds:
                 got = per_seed[s][e]
                 if "exception" in got:
                     wrong.append((s, "raised %s: %s" % (got["exception"], got["text"])))
+                    permuted = False
                     continue
-                want = {"c0": exp["c0"], "c1": exp["c1"], "user": exp["layered"]}
                 have = {"c0": got["c0"], "c1": got["c1"], "user": flatten_user(got["user"])}
                 if have != want:
                     wrong.append((s, "c0=%r c1=%r user=%r" % (have["c0"], have["c1"], have["user"])))
+                    permuted = permuted and have in others
             if wrong:
-                chk.violation("uservars-order:%s:%s" % (ENTRY[e], input_class(c)),
-                              "files %s given in the order %s: specified c0=%r c1=%r layered=%r; %s" % (
+                key = "uservars:%s:files-layered-in-another-order" % ENTRY[e] if permuted else \
+                      "uservars:%s:wrong-result:defined=%s" % (ENTRY[e], defined_keys(c))
+                chk.violation(key, "files %s given in the order %s: specified c0=%r c1=%r layered=%r; %s" % (
                                   c["shape"], c["order"], exp["c0"], exp["c1"], exp["layered"],
                                   "; ".join("PYTHONHASHSEED=%s -> %s" % w for w in wrong[:4])), replay)
                 continue
@@ -319,6 +330,12 @@ def diff_paths(a, b, path=""):
     return [] if a == b else [path]
 
 
+def field_of(path):
+    """/components/<node>/<field>... -> <field>;  /<top>... -> <top>   (list indices dropped)"""
+    parts = [p.split("[")[0] for p in path.strip("/").split("/")]
+    return parts[2] if parts[0] == "components" and len(parts) > 2 else parts[0]
+
+
 def judge_rich(chk, seeds, result, ids):
     for rid in ids:
         dumps = {s: result[s].get(rid) for s in seeds}
@@ -336,7 +353,7 @@ def judge_rich(chk, seeds, result, ids):
         for s in seeds[1:]:
             if texts[s] != texts[seeds[0]]:
                 where = diff_paths(ref, dumps[s])[:6]
-                kind = sorted({w.strip("/").split("/")[2] if w.startswith("/components/") and len(w.strip("/").split("/")) > 2 else w.strip("/").split("/")[0] for w in where})
+                kind = sorted({field_of(w) for w in where})
                 chk.violation("nondeterministic:%s:%s" % (rid, "+".join(kind)),
                               "dumps of PYTHONHASHSEED=%s and %s differ at %s" % (seeds[0], s, where),
                               {"rich": rid, "seeds": seeds})
@@ -380,7 +397,8 @@ def run(tier):
         raise MachineryError("only %d order-sensitive cases" % nsens)
     seeds = hash_seeds(t["nseeds"])
     result = run_processes(chk, t, cases, seeds)
-    judge(chk, cases, seeds, result)
+    index = {(tuple(c["shape"]), tuple(c["order"])): c["expected"] for c in cases}
+    judge(chk, cases, seeds, result, index)
     judge_rich(chk, seeds, result, [c["id"] for c in rich_cases("x")])
     chk.cov["rule"] = ("user-variable family: every assignment of %d shapes to the files of the list x every list of length <= %d over the files (repetitions "
                        "included), each loaded through 2-3 entry points in %d processes (PYTHONHASHSEED %s), variants of the documents with shuffled "
@@ -408,7 +426,8 @@ def replay(path):
         c = rp["case"]
         c["instantiate"] = True
         result = run_processes(chk, t, [c], rp["seeds"], with_rich=False)
-        judge(chk, [c], rp["seeds"], result)
+        index = {(tuple(c["shape"]), tuple(o)): e for (o, e) in rp.get("other_orders", [])}
+        judge(chk, [c], rp["seeds"], result, index)
     else:
         result = run_processes(chk, t, [], rp["seeds"], with_rich=True)
         judge_rich(chk, rp["seeds"], result, [rp["rich"]])
